@@ -262,7 +262,7 @@ def fam_redim(tier, rng):
     kinds = [("I", 0, False), ("$", 0, False), ("$", 3, False), ("D", 0, True)]
     for t, fixn, ext in kinds:
         for second in ("typed", "bare"):
-            for where in ("main", "sub-shared"):
+            for where in ("main", "sub-shared", "main-shared"):
                 b = B()
 
                 def dm(lo, hi, **kw):
@@ -280,11 +280,17 @@ def fam_redim(tier, rng):
                     return e
                 val = lit("$", "abcdef") if t == "$" else lit("I", 7)
                 show = lambda: b.print(lit("$", "["), el(1), lit("$", "]"), lit("$", "["), el(2), lit("$", "]"), bound("l", "AR", t, num(1)), bound("u", "AR", t, num(1)))
-                first = dm(0, 2, shared=(where == "sub-shared"))
+                first = dm(0, 2, shared=(where != "main"))
                 again = dm(1, 4, bare_redim=(second == "bare"))
                 if where == "main":
                     main = [first, b.let(el(1), val), show(), again, show(), b.let(el(2), val), show()]
                     subs = []
+                elif where == "main-shared":
+                    # re-dimensioned in the module without repeating SHARED: the subprograms still see it
+                    again["noshared"] = True
+                    again["shared"] = True
+                    main = [first, b.let(el(1), val), show(), again, b.let(el(2), val), b.call("G", []), show()]
+                    subs = [sub("G", [], [b.print(lit("$", "g"), el(2), bound("u", "AR", t, num(1))), b.let(el(4), val)])]
                 else:
                     again["noshared"] = True
                     again["shared"] = True          # the spec: it IS the shared array; the text does not say SHARED
